@@ -17,7 +17,9 @@ def run(ctx):
                 "container / binary results, two declared exceptions, two oneway methods) x argument class {zero values, typical, "
                 "edge: multi-byte and control characters, extreme integers, empty and 40-entry containers, all 256 byte values, "
                 "70 kB binary} x every handler outcome the IDL allows {return, first / second declared exception, undeclared error, "
-                "handler's own application exception}, plus every ordered pair of (method, outcome) calls on one client; "
+                "handler's own application exception}, plus every ordered pair of (method, outcome) calls on one client, plus (HTTP) every "
+                "call with the connection dropped between handler and response and every two-way call by a caller that accepts only 8 "
+                "bytes of reply followed by an ordinary call; "
                 "enumerated by TLC with what Rpc says the caller observes, the handler count and the number of reply frames; run "
                 "over in-memory, TCP adapter + simple server, HTTP and NATS x binary / compact / JSON (pairs rotate over the 12 "
                 "combinations; quick: every 6th pair per combination). non-trivial = outcome is not a plain return or arguments "
@@ -51,7 +53,9 @@ def run(ctx):
         for proto in ("binary", "compact", "json"):
             k += 1
             for i, seq in enumerate(cases):
-                if len(seq) > 1 and (i + ctx.seed % stride + k) % stride != 0:
+                if len(seq) > 1 and seq[0].get("fault", "none") == "none" and (i + ctx.seed % stride + k) % stride != 0:
+                    continue
+                if any(c.get("fault", "none") != "none" for c in seq) and kind != "http":
                     continue
                 ctx.case(key=[kind, proto, seq], nontrivial=any(c["o"] != "return" or c["args"] != "typical" for c in seq))
     ctx.traces_validated = res["runs"]
